@@ -363,8 +363,8 @@ func isLeftPad(c *Ctx, fn *ssa.Function, pi int) bool {
 		}
 		t := b.Of(e.Results[0], e.Instr)
 		if _, m := ana.MatchAny(t,
-			"call<builtin.append>(makeslice<[]byte>(bin<->($size, len("+p+")), _), "+p+")",
-			"call<builtin.append>(slice(alloc<*>, 0, bin<->($size, len("+p+"))), "+p+")",
+			"concat(makeslice<[]byte>(bin<->($size, len("+p+")), _), "+p+")",
+			"concat(slice(alloc<*>, 0, bin<->($size, len("+p+"))), "+p+")",
 			"obj(makeslice<[]byte>($size, $size), call<builtin.copy>(slice(self, bin<->($size, len("+p+")), none), "+p+"))"); m {
 			ok = true
 			continue
